@@ -36,7 +36,8 @@ structure Geo where
   maxAbsAx0 : Nat
   maxAbsTang : Nat
   maxAbsTof : Nat
-  eqclass : Nat := 0         -- geometries with equal projection data, voxel size and origin share it
+  eqclass : Nat := 0         -- geometries that `set_up` cannot tell apart (equal projection data, voxel size, origin
+                             -- and index range of the image, by the library's own `==`) share it: the model's `G`
 
 def defaultAx : AxGeo :=
   { nppr := 1, nppa := fun _ => 1, delta2 := fun _ => 0, minAx := fun _ => 0, maxAx := fun _ => 0,
@@ -101,7 +102,7 @@ def parseElems : Nat → List String → Elems
 def fmtElems (e : Elems) : String :=
   " ".intercalate (toString e.length :: e.map fun p => s!"{fmtVox p.1} {p.2}")
 
-/-- key of the table of computed rows: geometry id, number of tangential rays, FOV restriction, bin -/
+/-- key of the table of computed rows: geometry (class), number of tangential rays, FOV restriction, bin -/
 structure DKey where
   gid : Nat
   ntl : Nat
@@ -116,12 +117,14 @@ structure St where
   table : List (DKey × Elems) := []
   pm : PM Nat String := { params := default }
 
+/-- the geometry of a class (any member: the tokens of all members agree) -/
+def St.ofClass (st : St) (c : Nat) : Geo := ((st.geos.find? fun e => e.2.eqclass == c).map (·.2)).getD default
+
+/-- the model's geometries `G` are the classes -/
 def St.world (st : St) : World Nat String :=
-  { symOf := fun g p => ((st.geos.lookup g).getD default).sym p.flags
+  { symOf := fun g p => (st.ofClass g).sym p.flags
     compute := fun g p b => (st.table.find? fun e => e.1 == ⟨g, p.ntl, p.restrictFOV, b⟩).map (·.2)
-    fits := fun g => let gg := (st.geos.lookup g).getD default; keyFits gg.maxAbsAx0 gg.maxAbsTang gg.maxAbsTof
-    sameDataVoxelOrigin := fun a b =>
-      ((st.geos.lookup a).getD default).eqclass == ((st.geos.lookup b).getD default).eqclass }
+    fits := fun g => let gg := st.ofClass g; keyFits gg.maxAbsAx0 gg.maxAbsTang gg.maxAbsTof }
 
 def defaultParams : Params := { flags := ⟨true, true, true, true, true⟩, ntl := 1, restrictFOV := true, actualBoundaries := false }
 
@@ -154,8 +157,9 @@ def stepLine (st : St) (line : String) : St × String :=
     | .ok (pm, _) => ({ st with pm := pm }, "ok")
     | .error e => (st, fmtErr e)
   | ["psetup", gid] =>
-    if !((st.geos.lookup (N gid)).getD default).valid then (st, "err") else
-    match st.pm.step st.world (.setUp (N gid)) with
+    let gg := (st.geos.lookup (N gid)).getD default
+    if !gg.valid then (st, "err") else
+    match st.pm.step st.world (.setUp gg.eqclass) with
     | .ok (pm, _) => ({ st with pm := pm }, "ok")
     | .error e => (st, fmtErr e)
   | ["pmode", en, bo] =>
